@@ -672,6 +672,10 @@ class Interp:
             g2 = {}
             m = re.search(r'::<([^<>]*(?:<[^<>]*>)?[^<>]*)>$', callee_r)
             if m and re.search(r'\bT\b', fn.args + fn.ret): g2['T'] = split_top(m.group(1))[-1]
+            elif m and len(split_top(m.group(1))) == 1:
+                # one explicit generic argument and exactly one single-letter type parameter in the signature: bind it (e.g. snapshot_meta::<Targets> with R)
+                letters = sorted(set(re.findall(r'(?<![\w:])([A-Z])(?![\w:])', fn.args + fn.ret)))
+                if len(letters) == 1: g2[letters[0]] = m.group(1).strip()
             # async body poll inherits generics of the constructor call stored in the coroutine object
             if 'async fn body of' in callee_r:
                 mm = re.search(r'async fn body of .*?<(.+)>\(\)', callee_r)
